@@ -1,4 +1,4 @@
 From Coq Require Import Extraction ExtrOcamlBasic NArith.
 From DV Require Import Base.Outcome C13.Gen C13.Model C13.ModelLabel.
 Extraction Language OCaml.
-Extraction "../build/ml/C13/model.ml" c13_bitmap c13_nsec c13_nsec3 c13_hash c13_dedup c13_nsec_t c13_sorted_records c13_label c13_bm_iter c13_nsec3_t c13_bm_parse.
+Extraction "../build/ml/C13/model.ml" c13_bitmap c13_nsec c13_nsec3 c13_hash c13_dedup c13_nsec_t c13_sorted_records c13_label c13_bm_iter c13_nsec3_t c13_bm_parse c13_sr_run.
